@@ -812,6 +812,72 @@ impl Run {
 
     fn exec_reject(&mut self, kind: RejectKind, sel: u16) -> Result<Done, Fail> {
         let st = self.model.st().clone();
+        if kind == RejectKind::BatchBadTail {
+            let Some((t0, i)) = st.last else { return Ok(Done::Skipped) };
+            let mut t = t0;
+            if let Some(hi) = self.max_id_seen {
+                if (t, i.saturating_add(1)) <= hi {
+                    if self.avoid_low_reappend {
+                        t = hi.0.saturating_add(1);
+                        self.excluded += 1;
+                    } else {
+                        self.classes.hit("reappend_at_or_below_earlier_id");
+                    }
+                }
+            }
+            let k = 1 + (sel % 3) as u64;
+            let mut entries = vec![];
+            let mut recs = vec![];
+            for j in 0..k {
+                let id = (t, i + 1 + j);
+                let p = payload(t, id.1, PaySel::Tiny(3), j);
+                self.model.append_one(id, p.clone()).map_err(|e| Fail::new("harness-resolve", format!("batch head {id:?} not legal: {e:?}")))?;
+                self.note_term(t);
+                if Some(id) > self.max_id_seen {
+                    self.max_id_seen = Some(id);
+                }
+                recs.push(Rec::Append(id, p.clone()));
+                entries.push((id, p));
+            }
+            let lastgood = (t, i + k);
+            let bad = match (sel >> 4) % 3 {
+                0 => (t, lastgood.1 + 2),
+                1 => lastgood,
+                _ => {
+                    if t > 0 {
+                        (t - 1, lastgood.1 + 1)
+                    } else {
+                        (t, lastgood.1 + 3)
+                    }
+                }
+            };
+            if self.model.check_append(&bad).is_ok() {
+                return Err(Fail::new("harness-resolve", format!("batch tail {bad:?} is legal")));
+            }
+            entries.push((bad, format!("REJECTED-TAIL-{}", sel)));
+            self.classes.hit("reject");
+            self.classes.hit("reject_batch_tail");
+            let what = format!("append({:?})", entries.iter().map(|e| e.0).collect::<Vec<_>>());
+            let res = self.rl_mut().append(entries);
+            // the accepted head of the batch is journalled
+            let base = self.model.records.len() - recs.len();
+            for (j, r) in recs.iter().enumerate() {
+                let stj = self.model.prefix[base + j + 1].st.clone();
+                let n = base + j + 1;
+                let cfg = self.cfg.clone();
+                if let Some(l) = self.layout.as_mut() {
+                    let before = l.chunks.len();
+                    l.on_record(r, &cfg, &stj, n);
+                    if l.chunks.len() > before {
+                        self.classes.hit("rotation");
+                    }
+                }
+            }
+            return match res {
+                Err(e) => Ok(Done::Rejected { kind, err: format!("{what}: {e}") }),
+                Ok(_) => Err(Fail::new("reject-accepted/BatchBadTail", format!("{what} ends with an entry the specification refuses (state {:?}) but returned Ok", st))),
+            };
+        }
         enum Call {
             Vote((u64, u64)),
             Append(LogId, String),
@@ -856,6 +922,7 @@ impl Run {
                 Some((_, i)) if i >= 1 => Call::Truncate(1 + pick(sel, i as usize) as u64),
                 _ => return Ok(Done::Skipped),
             },
+            RejectKind::BatchBadTail => unreachable!(),
         };
         // the reference model must reject it
         let model_rejects = match &call {
